@@ -37,6 +37,24 @@ Definition relation_remove_cs (cs : list rtree) (i : nat) : res (list rtree) :=
   else Ok (firstn (i - relation_remove_scan_prev pre) pre ++ post).
 
 
+(* the children [lo, hi) that the two removals take away (the node itself is child i) *)
+Definition entry_remove_range (v : variant) (cs : list rtree) (i : nat) : nat * nat :=
+  let pre := firstn i cs in
+  let post := skipn (S i) cs in
+  let is_first := negb (existsb (fun c => is_entry c || (fx_first_substvar v && node_is SUBSTVAR c)) pre) in
+  match entry_remove_scan_next post with
+  | Ok (k1, rc) =>
+      if is_first then (i, S i + k1 + ws_prefix_len (skipn k1 post))
+      else (i - entry_remove_scan_prev rc pre, S i + k1)
+  | _ => (i, S i)
+  end.
+Definition relation_remove_range (cs : list rtree) (i : nat) : nat * nat :=
+  let pre := firstn i cs in
+  let post := skipn (S i) cs in
+  if negb (existsb is_relation pre) then
+    match relation_remove_scan_next post with Ok k => (i, S i + k) | _ => (i, S i) end
+  else (i - relation_remove_scan_prev pre, S i).
+
 (* ------------------------------------------------------------------ a relation's children *)
 Definition set_archqual_cs (q : str) (cs : list rtree) : list rtree :=
   match find_index (node_is ARCHQUAL) cs with
